@@ -220,11 +220,14 @@ pub struct EfgOpts {
     /// INVALID file: one interior node (below a branching) carries an outcome with a clearly
     /// non-zero pair sum that the terminals below it do not compensate: not constant sum
     pub uncompensated: bool,
+    /// an explicitly named infoset with several nodes states its name at some of them only (the
+    /// first, the last, or a random non-empty subset): the format makes the name optional per node
+    pub sparse_names: bool,
 }
 
 impl EfgOpts {
     pub fn plain() -> EfgOpts {
-        EfgOpts { constant: 0.0, interior: false, share_outcomes: false, naming: Naming::Named, decimal_probs: false, chance_labels: 0, shuffle_actions: false, outcome_names: false, commas: false, comment: false, cross_player_number_names: false, by_reference: false, uncompensated: false }
+        EfgOpts { constant: 0.0, interior: false, share_outcomes: false, naming: Naming::Named, decimal_probs: false, chance_labels: 0, shuffle_actions: false, outcome_names: false, commas: false, comment: false, cross_player_number_names: false, by_reference: false, uncompensated: false, sparse_names: false }
     }
 
     pub fn random(rng: &mut Rng, dyadic: bool) -> EfgOpts {
@@ -242,6 +245,7 @@ impl EfgOpts {
             cross_player_number_names: rng.chance(0.15),
             by_reference: rng.chance(0.5),
             uncompensated: false,
+            sparse_names: rng.chance(0.3),
         }
     }
 }
@@ -590,6 +594,58 @@ pub fn write_efg(rng: &mut Rng, tree: &HNode, opts: &EfgOpts) -> FileGame {
     let sem = w.node(tree, (0.0, 0.0), (0.0, 0.0), false);
     if opts.by_reference {
         w.strip_references();
+    }
+    if opts.sparse_names && !matches!(opts.naming, Naming::Duplicate | Naming::NumberClash) {
+        // text-level: per named infoset, the lines that state its name
+        let mut sites: HashMap<(usize, u64), Vec<usize>> = HashMap::new();
+        let mut lines: Vec<String> = w.out.lines().map(|l| l.to_string()).collect();
+        let mut heads: HashMap<(usize, u64), (String, String)> = HashMap::new();
+        for p in 0..2 {
+            for (_, (number, _, explicit)) in w.infos[p].iter() {
+                if let Some(e) = explicit {
+                    let bare = format!("p \"\" {} {} {{", p + 1, number);
+                    let full = format!("p \"\" {} {} {} {{", p + 1, number, quote(e));
+                    heads.insert((p, *number), (full, bare));
+                }
+            }
+        }
+        for (li, l) in lines.iter().enumerate() {
+            for (key, (full, _)) in heads.iter() {
+                if l.starts_with(full.as_str()) {
+                    sites.entry(*key).or_default().push(li);
+                }
+            }
+        }
+        let mut keys: Vec<(usize, u64)> = sites.keys().copied().collect();
+        keys.sort();
+        let mut any = false;
+        for key in keys {
+            let at = &sites[&key];
+            if at.len() < 2 {
+                continue;
+            }
+            let keep: Vec<bool> = match w.rng.below(3) {
+                0 => (0..at.len()).map(|i| i == 0).collect(),
+                1 => (0..at.len()).map(|i| i + 1 == at.len()).collect(),
+                _ => {
+                    let mut k: Vec<bool> = (0..at.len()).map(|_| w.rng.chance(0.4)).collect();
+                    let force = w.rng.below(at.len());
+                    k[force] = true;
+                    k
+                }
+            };
+            let (full, bare) = &heads[&key];
+            for (i, li) in at.iter().enumerate() {
+                if !keep[i] {
+                    lines[*li] = format!("{}{}", bare, &lines[*li][full.len()..]);
+                    any = true;
+                }
+            }
+        }
+        if any {
+            w.out = lines.join("\n") + "\n";
+            w.features.push("infoset-name-stated-at-some-nodes-only");
+        }
     }
     FileGame { tree: sem, constant: opts.constant, text: w.out, format: Format::Efg, exact: w.exact, features: w.features, totals: w.totals }
 }
